@@ -49,8 +49,66 @@ def plan(tier, seed):
             t.append(("partial", n, cnt // 8, seed * 100 + i))
     if tier == "thorough":
         t.append(("repo-tests",))
+    t.append(("helpers", seed))
     random.Random(seed).shuffle(t)
     return t
+
+
+def work_helpers(p, seed):
+    """The documented helper API around the search: generate_local_clifford_symplectic(_from_id), check_LC and
+    local_clifford_layer_to_circuit on every layer of n <= 3 qubits and on random layers up to n = 6."""
+    import itertools
+    from htstabilizer.find_local_clifford_layer import (generate_local_clifford_symplectic_from_id, generate_local_clifford_symplectic,
+                                                        check_LC, local_clifford_layer_to_circuit)
+    from htstabilizer.graph import Graph
+    rnd = random.Random(seed)
+    DOC = [(1, 0, 0, 1), (0, 1, 1, 0), (1, 0, 1, 1), (1, 1, 1, 0), (0, 1, 1, 1), (1, 1, 0, 1)]     # I H S HS SH HSH as documented
+    combos = [c for n in (1, 2, 3) for c in itertools.product(range(6), repeat=n)] + \
+             [tuple(rnd.randrange(6) for _ in range(n)) for n in (4, 5, 6) for _ in range(150)]
+    for combo in combos:
+        n = len(combo)
+        p.evals += 1
+        case = {"kind": "helper", "ids": list(combo)}
+        ok, A = call(generate_local_clifford_symplectic_from_id, list(combo))
+        ok2, A2 = call(generate_local_clifford_symplectic, [list(DOC[c]) for c in combo])
+        if not ok or not ok2:
+            p.violate("layer-helper raises", "generate_local_clifford_symplectic(_from_id) raised on ids %s" % (combo,), case)
+            continue
+        blocks = [tuple(int(np.asarray(A[j])[q, q]) for j in range(4)) for q in range(n)]
+        blocks2 = [tuple(int(np.asarray(A2[j])[q, q]) for j in range(4)) for q in range(n)]
+        offdiag = any(np.any(np.asarray(b) - np.diag(np.diag(np.asarray(b)))) for b in list(A) + list(A2))
+        if blocks != [DOC[c] for c in combo] or blocks2 != blocks or offdiag:
+            p.violate("layer-helper wrong-blocks", "ids %s give per-qubit blocks %s / %s, documented %s" % (combo, blocks, blocks2, [DOC[c] for c in combo]), case)
+            continue
+        contracts.take()
+        ok, qc = call(local_clifford_layer_to_circuit, A)
+        if not ok:
+            p.violate("local_clifford_layer_to_circuit raises", "raised %s on the layer of ids %s" % (exc_name(qc), combo), case)
+        else:
+            contracts.layer_circuit_post(A, qc)
+            for v in contracts.take():
+                p.violate(v["contract"] + " " + v["tag"], v["what"], case)
+            p.counters["layer circuits checked"] += 1
+        # check_LC against the oracle on a random graph and random operators
+        if n >= 2:
+            code = rnd.randrange(1 << (n * (n - 1) // 2))
+            rows = lcorbit.adj_rows(code, n)
+            Gm = np.array([[(rows[a] >> b) & 1 for b in range(n)] for a in range(n)], dtype=np.int8)
+            if rnd.random() < 0.5:      # operators that the layer does map into the group
+                inv = {0: 0, 1: 1, 2: 2, 3: 4, 4: 3, 5: 5}
+                base = [(g[0], g[1]) for g in lcorbit.graph_gens(code, n)]
+                ops = contracts.apply_layer([DOC[inv[c]] for c in combo], base, n)
+            else:
+                ops = [(rnd.getrandbits(n), rnd.getrandbits(n)) for _ in range(rnd.randint(1, n))]
+            R, S = mats(ops, n)
+            want = contracts.in_graph_group(contracts.apply_layer([DOC[c] for c in combo], ops, n), rows, n)
+            ok, got = call(check_LC, R, S, Graph(Gm), A)
+            p.counters["check_LC -> %s" % (got if ok else "exc")] += 1
+            if not ok or bool(got) != want:
+                p.violate("check_LC wrong", "check_LC returned %s for layer ids %s, operators %s, graph %d; the layer %s the operators into the graph state's group"
+                          % (got if ok else exc_name(got), combo, ops, code, "maps" if want else "does not map"), case)
+        p.nontrivial(("helper", combo))
+    p.sample({"helper API": "all layers n<=3 + random layers", "layers": len(combos)})
 
 
 def mats(ops, n):
@@ -120,6 +178,9 @@ def work(task):
     contracts.take()
     p = Partial()
     kind = task[0]
+    if kind == "helpers":
+        work_helpers(p, task[1])
+        return p
     if kind == "full":
         _, n, seeds, ngraphs, seed = task
         rnd = random.Random("%s-%s" % (seed, seeds[0]))
